@@ -16,7 +16,7 @@ func init() {
 		ID: "C04", Level: "exploration",
 		Rule: "one case = one generated table (unique id, 1..3 key columns drawn from value pools that include texts containing csvq's internal key separators split differently across columns, numbers in several spellings, datetimes, boolean words, NULLs; an integer column v) and the query shapes GROUP BY (buckets read off through LISTAGG(id)), DISTINCT, UNION/EXCEPT/INTERSECT, PARTITION BY (COUNT/LISTAGG OVER), with and without --strict-equal. " +
 			"Oracle: for every pair of rows the independent three-valued relation SAME/DIFFERENT/UNSPECIFIED decides whether they must or must not share a bucket; every aggregate (COUNT, SUM, AVG, MIN, MAX, MEDIAN, STDEV(P), VAR(P), LISTAGG, JSON_AGG, a user-defined aggregate) is recomputed over the rows of its bucket. non-trivial = at least one SAME and one DIFFERENT pair were judged; distinct = table digest + key list. Every 8th case has 200..700 rows and --cpu 2..8.",
-		Quick: 300, Thorough: 9000, FloorQuick: 200, FloorThorough: 6000,
+		Quick: 300, Thorough: 9000, FloorQuick: 150, FloorThorough: 5000,
 		Assumptions: []string{"pairs the manual leaves open are not judged: boolean word vs 0/1, integer vs integral float, datetime texts in different layouts denoting one instant",
 			"floats are compared to 1e-9 relative"},
 		Setup: func(w *core.Worker) { core.HermeticProcess(w.Work) },
@@ -379,6 +379,23 @@ func c04Case(w *core.Worker, i int) {
 			c04SetOp(t, keyCols, strict, op, v, func(sig, what string) { viol("setop:"+op+":"+sig, q, what) })
 		}
 	}
+	// 4a. the ALL forms keep duplicates. How many of them INTERSECT ALL / EXCEPT ALL keep is not part of this property; what is:
+	// UNION ALL returns every row of both operands; no bucket of INTERSECT ALL / EXCEPT ALL holds more rows than the left
+	// operand has in it, a bucket present in both operands is not lost by INTERSECT ALL, a bucket absent from the right
+	// operand keeps all its rows under EXCEPT ALL, and nothing foreign appears
+	for _, op := range []string{"UNION ALL", "INTERSECT ALL", "EXCEPT ALL"} {
+		for _, swap := range []bool{false, true} {
+			l, rr := "id % 2 = 1", "id % 4 = 0" // the right operand is the smaller one …
+			if swap {
+				l, rr = "id % 4 = 0", "id % 2 = 1" // … or the larger one
+			}
+			q = fmt.Sprintf("SELECT %s FROM t WHERE %s %s SELECT %s FROM t WHERE %s", keyList, l, op, keyList, rr)
+			if v := run(q); v != nil {
+				evaluated++
+				c04SetOpAll(t, keyCols, strict, op, swap, v, func(sig, what string) { viol("setop:"+op+":"+sig, q, what) })
+			}
+		}
+	}
 	// 4b. an empty operand: EXCEPT / UNION still return one row per class of the other operand, INTERSECT nothing
 	for _, op := range []string{"EXCEPT", "UNION"} {
 		q = fmt.Sprintf("SELECT %s FROM t %s SELECT %s FROM t WHERE 1 = 0", keyList, op, keyList)
@@ -438,7 +455,7 @@ func c04Case(w *core.Worker, i int) {
 	if big {
 		w.Count("cases_parallel_path", 1)
 	}
-	w.Case(core.Digest(t.CSV(), keyList, fmt.Sprint(strict)), same > 0 && diff > 0 && evaluated == 6)
+	w.Case(core.Digest(t.CSV(), keyList, fmt.Sprint(strict)), same > 0 && diff > 0 && evaluated >= 12)
 }
 
 func keyOf(row []*string, cols []int) []*string {
@@ -663,5 +680,77 @@ func c04Aggregates(t *GTable, vcol int, ids []int, row []core.Val, viol func(sig
 	// LISTAGG(v, ',') lists exactly the non-null values of the bucket, in row order
 	if got, want := row[14], strings.Join(texts, ","); (len(texts) == 0 && got.T != 'N' && got.S != "") || (len(texts) > 0 && got.S != want) {
 		viol("aggregate:LISTAGG", fmt.Sprintf("LISTAGG(v) over bucket %v = %v, expected %q", ids, got, want))
+	}
+}
+
+// c04SetOpAll judges the ALL forms by bucket counts (see the call site for what is and is not demanded).
+func c04SetOpAll(t *GTable, cols []int, strict bool, op string, swap bool, v *core.Table, viol func(sig, what string)) {
+	ac := allCols(len(cols))
+	var left, right [][]*string
+	for idx, row := range t.Rows {
+		id := idx + 1
+		inOdd, inQuad := id%2 == 1, id%4 == 0
+		if (!swap && inOdd) || (swap && inQuad) {
+			left = append(left, keyOf(row, cols))
+		}
+		if (!swap && inQuad) || (swap && inOdd) {
+			right = append(right, keyOf(row, cols))
+		}
+	}
+	var outs [][]*string
+	for _, r := range v.Rows {
+		outs = append(outs, valKey(r))
+	}
+	// count(k, set): rows of set in k's bucket; ok = false when some relation is unspecified (then nothing is judged for k)
+	count := func(k []*string, set [][]*string) (n int, ok bool) {
+		for _, o := range set {
+			switch rowRel(k, o, ac, strict) {
+			case relSame:
+				n++
+			case relUnspec:
+				return 0, false
+			}
+		}
+		return n, true
+	}
+	if op == "UNION ALL" && len(outs) != len(left)+len(right) {
+		viol("count", fmt.Sprintf("the operands hold %d and %d rows, UNION ALL returns %d", len(left), len(right), len(outs)))
+		return
+	}
+	for _, k := range append(append([][]*string{}, left...), right...) {
+		nl, ok1 := count(k, left)
+		nr, ok2 := count(k, right)
+		no, ok3 := count(k, outs)
+		if !ok1 || !ok2 || !ok3 {
+			continue
+		}
+		switch op {
+		case "UNION ALL":
+			if no != nl+nr {
+				viol("count", fmt.Sprintf("the bucket of %s holds %d + %d rows in the operands and %d in the UNION ALL", fmtRow(k), nl, nr, no))
+				return
+			}
+		case "INTERSECT ALL":
+			if (nl > 0 && nr > 0 && no == 0) || no > nl || (nr == 0 && no > 0) {
+				viol("count", fmt.Sprintf("the bucket of %s holds %d rows in the left and %d in the right operand, and %d in the INTERSECT ALL", fmtRow(k), nl, nr, no))
+				return
+			}
+		case "EXCEPT ALL":
+			if (nr == 0 && no != nl) || no > nl {
+				viol("count", fmt.Sprintf("the bucket of %s holds %d rows in the left and %d in the right operand, and %d in the EXCEPT ALL", fmtRow(k), nl, nr, no))
+				return
+			}
+		}
+	}
+	for _, o := range outs {
+		nl, ok1 := count(o, left)
+		nr, ok2 := count(o, right)
+		if !ok1 || !ok2 {
+			continue
+		}
+		if (op == "UNION ALL" && nl+nr == 0) || (op != "UNION ALL" && nl == 0) {
+			viol("foreign", fmt.Sprintf("output row %s belongs to no bucket of the %s", fmtRow(o), map[bool]string{true: "operands", false: "left operand"}[op == "UNION ALL"]))
+			return
+		}
 	}
 }
